@@ -14,6 +14,8 @@ CHECKS = {
             "deterministic simulation; wire-trace invariant monitor (credit ledger, chunk size)"),
     "C04": ("exploration", "§4 C04", "base channels between two real endpoints; items straddling max_data_size (streamed through lock-step helper threads), chunk_size and max_item_size, items failing to (de)serialize, cancelled sends, link cut sub-batch; oracle = receive events must be explainable by the per-sender attempt log (deliver / receiver-must-fail / sender-failed), complete at quiescence",
             "deterministic simulation + fault injection; sequence-matching oracle against the sender's attempt log"),
+    "C06": ("fault_enumeration", "§4 C06", "two fixed mixed chmux workloads (handshake, port opens, chunked transfers both ways, port batch, pending connect/accept/closed()/recv, idle tail with pings); every frame index x direction x fault kind (sink error, stream error, EOF, silent stall both ways, one-directional stall) is executed under N seeded schedules; oracle = both dispatchers end with Err by timeout+eps, every outstanding and fresh operation errors in bounded virtual time, no orderly end-of-stream is reported, received is a prefix of sent; points beyond the traffic exercise the idle-survival clause (hours of virtual idle time, then a transfer)",
+            "deterministic simulation; exhaustive enumeration of transport cut points x fault kinds, seeded schedules per point"),
     "C03": ("exploration", "§4 C03", "same runs as C01 plus stalled-receiver runs; oracle = no send/connect pending at quiescence while the receiver consumed everything, credit-conservation probe, zero-cost frame flood detector",
             "deterministic simulation; quiescence-based bounded liveness oracle + credit conservation probe"),
 }
